@@ -162,10 +162,12 @@ Inductive out_shape (c : config) (s : state) : list ev -> Prop :=
 | os_next : forall e r, inflight (wr s) = Some e -> pc (wr s) = WConsume -> out_shape c s [ENext e r]
 | os_next_rep : forall e r, inflight (wr s) = Some e -> pc (wr s) = WConsume -> nosub c = true ->
                 out_shape c s [ENext e RVal; EReport r]
-| os_flush : forall b ws, pc (wr s) = WHandle \/ pc (wr s) = WOuterFlush \/ pc (wr s) = WSdFlush ->
-             out_shape c s (EFlush b :: map EWake ws)
+| os_flush_wake : forall b, pc (wr s) = WHandle -> waiting (wr s) <> [] ->
+                  (ebw (wr s) - count (wr s) =? 0) || is_drained (dres (wr s)) = true ->
+                  out_shape c s (EFlush b :: map EWake (waiting (wr s)))
+| os_flush : forall b, pc (wr s) = WOuterFlush \/ pc (wr s) = WSdFlush -> out_shape c s [EFlush b]
 | os_drop : pc (wr s) = WSdDrop -> out_shape c s [EDropStream]
-| os_wakes : forall ws, pc (wr s) = WExit -> out_shape c s (map EWake ws).
+| os_wakes : pc (wr s) = WExit -> out_shape c s (map EWake (waiting (wr s) ++ fch (sh s))).
 
 Lemma step_out_shape : forall c s l s', step c s l = Some s' ->
   exists evs, out (gh s') = out (gh s) ++ evs /\ out_shape c s evs.
@@ -179,10 +181,17 @@ Proof.
     repeat match goal with H : context [match ?x with _ => _ end] |- _ => destruct x eqn:? end;
     try discriminate; bool_hyps.
   all: try solve [constructor; auto].
-  all: try solve [apply (os_flush c s _ []); auto].
+  all: try solve [apply os_flush; auto].
+  all: try solve [apply os_flush_wake; auto; intros Hx; rewrite Hx in *; discriminate].
   all: try solve [apply os_next_rep; auto].
+  all: try solve [apply os_wake1; destruct (pc (wr s)); try discriminate; reflexivity].
   all: discriminate.
 Qed.
+
+Lemma is_exited_true : forall p, is_exited p = true <-> p = WExited.
+Proof. intros p; destruct p; cbn; split; intros; try discriminate; auto. Qed.
+Lemma is_exited_false : forall p, is_exited p = false <-> p <> WExited.
+Proof. intros p; destruct p; cbn; split; intros; try discriminate; try congruence; auto. Qed.
 
 (* ---------------------------------------------------------------- control flow of the writer *)
 
